@@ -104,6 +104,11 @@ Rx ==
         /\ DoRecvBenign /\ st' = s2 /\ closeFlag' = e.close
         \* an exact stateless reset must not be ignored by a connection that is not yet drained
         /\ bad' = bad \cup Flag(~(e.kind = "reset" /\ st # "drained"), "ResetIgnored")
+                      \* a closed connection answers every packet of its peer with the close again (the
+                      \* first one may have been lost): the flag that makes the next transmission a
+                      \* close is up after the packet
+                      \cup Flag((st = "closed" /\ e.gen1 /\ e.onpath /\ e.kind = "other") => e.close,
+                                "CloseNotRepeated")
         /\ UNCHANGED closes
      \/ /\ ~(s2 = st \/ (st = "hs" /\ s2 = "est"))
         /\ ~(st # "drained" /\ s2 = "drained") /\ ~(st # "draining" /\ s2 = "draining")
